@@ -42,7 +42,7 @@ def sig1(draw, twod=False, nmax=None):
     N = draw(st.integers(1, nmax or (24 if twod else 65)))
     batch = tuple(draw(st.sampled_from([(), (), (1,), (3,), (2, 2), (3, 2)])))
     shape = batch + ((N, N) if twod else (N,))
-    kind = draw(st.sampled_from(["complex", "real", "float32", "int", "impulse"]))
+    kind = draw(st.sampled_from(["complex", "real", "float32", "int", "impulse", "uint8", "int16"]))
     if kind == "complex":
         x = draw(gen.complex_array(shape, kind="dense"))
     elif kind == "real":
@@ -51,17 +51,21 @@ def sig1(draw, twod=False, nmax=None):
         x = draw(gen.float_array(shape, kind="dyadic", dtype="float32"))
     elif kind == "int":
         x = draw(gen.int_array(shape, -50, 50))
+    elif kind == "uint8":
+        x = draw(gen.int_array(shape, 0, 255, dtype="uint8"))          # raw 8-bit camera frames
+    elif kind == "int16":
+        x = draw(gen.int_array(shape, -3000, 3000, dtype="int16"))
     else:
         x = draw(gen.complex_array(shape, kind="sparse"))
     y = draw(gen.complex_array(shape, kind="dense"))
-    return {"x": x, "y": y, "delta": draw(gen.logfloat(1e-3, 1e3)), "where": draw(st.sampled_from(["module", "package"])),
+    return {"x": x, "y": y, "delta": draw(st.one_of(gen.logfloat(1e-3, 1e3), st.sampled_from([1, 2, 3, 5]))), "where": draw(st.sampled_from(["module", "package"])),
             "a": draw(gen.dyadic(-2, 2, 16)), "b": draw(gen.dyadic(-2, 2, 16)), "k": draw(st.integers(-N, N)), "kind": kind}
 
 
 def classes_for(case, twod):
     x = case["x"]
     N = x.shape[-1]
-    return ["odd" if N % 2 else "even", "batch%d" % (x.ndim - (2 if twod else 1)), case["where"], case["kind"]]
+    return ["delta_int" if isinstance(case["delta"], int) else "delta_float", "odd" if N % 2 else "even", "batch%d" % (x.ndim - (2 if twod else 1)), case["where"], case["kind"]]
 
 
 def body_1d(ctx, case):
